@@ -1,11 +1,332 @@
-// Package c12 is the correspondence/oracle harness for property C12.
 package c12
 
-import "verifharness/hx"
+import (
+	"fmt"
+	"strings"
+
+	"github.com/tsawler/tabula/model"
+	"github.com/tsawler/tabula/rag"
+
+	"verifharness/hx"
+)
 
 func init() { hx.Register("C12", Run, Replay) }
 
-// Run is not built yet for this property.
-func Run(c *hx.Ctx) { c.Note("C12: harness not built") }
+type kase struct {
+	Seed  uint64 `json:"seed"`
+	Index int    `json:"index"`
+	Mode  string `json:"mode"` // doc | layout | fixed
+	Name  string `json:"name,omitempty"`
+}
 
-func Replay(c *hx.Ctx, kase map[string]interface{}) {}
+// ---- element-based chunker (rag.ChunkDocument …) ------------------------------------
+
+func viewsOf(chunks []*rag.Chunk) []cview {
+	out := make([]cview, len(chunks))
+	for i, ch := range chunks {
+		out[i] = cview{Idx: ch.Metadata.ChunkIndex, ID: ch.ID, Total: ch.Metadata.TotalChunks,
+			PS: ch.Metadata.PageStart, PE: ch.Metadata.PageEnd,
+			Path: append([]string(nil), ch.Metadata.SectionPath...), Text: ch.Text, Title: ch.Metadata.SectionTitle}
+	}
+	return out
+}
+
+// dumpChunks is the implementation's side of the correspondence:
+// <idx>,<hex id>,<total>,<pageStart>,<pageEnd>,<path: hex+hex… or ~>,<hex text> joined by ';' ("none" if empty)
+func dumpChunks(vs []cview) string {
+	if len(vs) == 0 {
+		return "none"
+	}
+	parts := make([]string, len(vs))
+	for i, v := range vs {
+		path := "~"
+		if len(v.Path) > 0 {
+			hs := make([]string, len(v.Path))
+			for j, p := range v.Path {
+				hs[j] = hx.HexS(p)
+			}
+			path = strings.Join(hs, "+")
+		}
+		parts[i] = fmt.Sprintf("%d,%s,%d,%d,%d,%s,%s", v.Idx, hx.HexS(v.ID), v.Total, v.PS, v.PE, path, hx.HexS(v.Text))
+	}
+	return strings.Join(parts, ";")
+}
+
+func chunkDoc(sz sizeCase, doc *model.Document) *rag.ChunkCollection {
+	switch sz.API {
+	case 0:
+		return rag.ChunkDocument(doc)
+	case 2:
+		return rag.NewDocumentChunker().ChunkDocument(doc)
+	default:
+		return rag.ChunkDocumentWithConfig(doc, sz.CC, sz.Cfg)
+	}
+}
+
+// tocMatch is the documented rule for a heading-like paragraph: its trimmed text
+// equals a Layout heading of a page with the same number.
+func tocMatch(d ldoc, number int, text string) bool {
+	text = strings.TrimSpace(text)
+	for _, lp := range d.Pages {
+		if lp.NoLayout || lp.Number != number {
+			continue
+		}
+		for _, e := range lp.Elems {
+			if e.Kind == "h" && strings.TrimSpace(e.Text) == text {
+				return true
+			}
+		}
+	}
+	return false
+}
+
+// splitTable supplies the text splitter (a parameter of the model, property C13)
+// at the call boundary: for every run of consecutive paragraphs whose joined text
+// exceeds the configured maximum, the pieces SplitToSize returns for it.
+//
+//	s=<hex text>:<piece>+<piece>…,…    piece = <start>.<len> (substring of the text) or x<hex>
+func splitTable(d ldoc, cfg rag.SizeConfig) string {
+	sc := rag.NewSizeCalculatorWithConfig(cfg)
+	var entries []string
+	seen := map[string]bool{}
+	flush := func(text string) {
+		if text == "" || seen[text] || !sc.IsAboveMax(text) {
+			return
+		}
+		seen[text] = true
+		pieces := sc.SplitToSize(text, nil)
+		var ps []string
+		from := 0
+		for _, p := range pieces {
+			at := strings.Index(text[from:], p)
+			if at >= 0 && p != "" {
+				ps = append(ps, fmt.Sprintf("%d.%d", from+at, len(p)))
+				from += at + len(p)
+			} else {
+				ps = append(ps, "x"+hx.HexS(p))
+			}
+		}
+		entries = append(entries, hx.HexS(text)+":"+strings.Join(ps, "+"))
+	}
+	for _, lp := range d.Pages {
+		cur := ""
+		for _, e := range lp.Elems {
+			if e.Kind == "p" && !tocMatch(d, lp.Number, e.Text) {
+				if cur != "" {
+					cur += "\n\n"
+				}
+				cur += e.Text
+				continue
+			}
+			flush(cur)
+			cur = ""
+		}
+		flush(cur)
+	}
+	return "s=" + strings.Join(entries, ",")
+}
+
+var allKinds = map[string]bool{"heading": true, "paragraph": true, "list-item": true, "table-cell": true, "image": true}
+
+func pagesOf(d ldoc) map[int]bool {
+	m := map[int]bool{}
+	for _, lp := range d.Pages {
+		m[lp.Number] = true
+	}
+	return m
+}
+
+// runDocCase checks one document with the element-based chunker.
+func runDocCase(c *hx.Ctx, k kase, d ldoc, sz sizeCase, tie bool) {
+	var vs []cview
+	var nColl int
+	p := hx.Safe(func() {
+		coll := chunkDoc(sz, toModel(d))
+		vs = viewsOf(coll.Chunks)
+		nColl = coll.Count()
+	})
+	what := func() string { return fmt.Sprintf("config %s; %s", sz.Name, describe(d)) }
+	if !c.Check("C12/panic", p == "", k, func() string { return "panic: " + p + "; " + what() }) {
+		return
+	}
+	if tie {
+		c.Op("c12.chunk "+splitTable(d, effCfg(sz))+" "+docWire(d), dumpChunks(vs))
+	}
+	atoms := atomsOf(d, func(int) bool { return true })
+	checkChunks(c, coverOpts{prefix: "C12/", kinds: allKinds, crossKind: true, exactPage: true, inPath: allKinds, pages: pagesOf(d)},
+		atoms, vs, k, what)
+	c.Check("C12/total", nColl == len(vs), k, func() string { return fmt.Sprintf("Count()=%d, %d chunks", nColl, len(vs)) })
+
+	// a chunk's path is unaffected by later headings: rename one later heading and
+	// compare every chunk that precedes it
+	var hpos [][2]int
+	for pi, lp := range d.Pages {
+		for ei, e := range lp.Elems {
+			if e.Kind == "h" {
+				hpos = append(hpos, [2]int{pi, ei})
+			}
+		}
+	}
+	if len(hpos) >= 2 {
+		pick := hpos[1+int(uint64(k.Index)%uint64(len(hpos)-1))]
+		d2 := cloneDoc(d)
+		old := d2.Pages[pick[0]].Elems[pick[1]].Text
+		d2.Pages[pick[0]].Elems[pick[1]].Text = strings.Replace(old, "h", "H", 1)
+		var vs2 []cview
+		if hx.Safe(func() { vs2 = viewsOf(chunkDoc(sz, toModel(d2)).Chunks) }) == "" {
+			cut := -1
+			hs := strip(old)
+			for i, v := range vs {
+				if strings.Contains(strip(v.Text), hs) {
+					cut = i
+					break
+				}
+			}
+			ok, bad := true, -1
+			for i := 0; i < cut && i < len(vs2); i++ {
+				if !eqPath(vs[i].Path, vs2[i].Path) {
+					ok, bad = false, i
+					break
+				}
+			}
+			c.Check("C12/path-aliased", ok, k, func() string {
+				return fmt.Sprintf("renaming the later heading %q changes the section path of the earlier chunk %d from %q to %q; %s",
+					clip(old), bad, vs[bad].Path, vs2[bad].Path, what())
+			})
+		}
+	}
+}
+
+// effCfg is the size configuration the chosen API really uses.
+func effCfg(sz sizeCase) rag.SizeConfig {
+	if sz.API == 1 {
+		return sz.Cfg
+	}
+	return rag.DefaultSizeConfig()
+}
+
+func cloneDoc(d ldoc) ldoc {
+	out := d
+	out.Pages = make([]lpage, len(d.Pages))
+	for i, p := range d.Pages {
+		out.Pages[i] = p
+		out.Pages[i].Elems = append([]lelem(nil), p.Elems...)
+	}
+	return out
+}
+
+// ---- fixed small documents (the shapes named in the property's rationale) -------------
+
+func h(lv int, t string) lelem { return lelem{Kind: "h", Level: lv, Text: t} }
+func para(t string) lelem      { return lelem{Kind: "p", Text: t} }
+
+func fixedDocs() map[string]ldoc {
+	one := func(es ...lelem) ldoc { return ldoc{Pages: []lpage{{Number: 1, Elems: es}}} }
+	return map[string]ldoc{
+		"h1-h2-h2":      one(h(1, "ha1z"), h(2, "hb2z"), para("pa3z"), h(2, "hc4z"), para("pb5z")),
+		"h1-h3-h3":      one(h(1, "ha1z"), h(3, "hb2z"), para("pa3z"), h(3, "hc4z"), para("pb5z")),
+		"h2-h1":         one(h(2, "ha1z"), para("pa2z"), h(1, "hb3z"), para("pb4z")),
+		"h1-p-h2-p":     one(h(1, "ha1z"), para("pa2z"), h(2, "hb3z"), para("pb4z")),
+		"h1-h2-p":       one(h(1, "ha1z"), h(2, "hb2z"), para("pa3z")),
+		"p-h4-p":        one(para("pa1z"), h(4, "ha2z"), para("pb3z")),
+		"h3-h2-h1-deep": one(h(3, "ha1z"), h(2, "hb2z"), h(1, "hc3z"), h(2, "hd4z"), h(6, "he5z"), h(4, "hf6z"), para("pa7z")),
+		"two-pages": {Pages: []lpage{{Number: 1, Elems: []lelem{h(1, "ha1z"), para("pa2z")}}, {Number: 2}, {Number: 3, Elems: []lelem{para("pb3z"), h(2, "hb4z"),
+			{Kind: "l", Items: []litem{{0, "la5z"}, {1, "lb6z"}, {0, "lc7z"}}}, {Kind: "t", Rows: [][]string{{"ta8z", "tb9z"}, {"tc10z", "td11z"}}}, {Kind: "i", Text: "ia12z"}}}}},
+	}
+}
+
+// ---- driver ---------------------------------------------------------------------------
+
+// tieBudget bounds the bytes of document text sent through the correspondence with
+// the Lean driver in one run (every case goes through the oracles regardless).
+var tieBudget int
+
+func runIndex(c *hx.Ctx, idx int, mode string) {
+	r := c.Rng.Fork(uint64(idx))
+	sz := pickSize(r)
+	d := genDoc(r, sz)
+	k := kase{Seed: c.Seed, Index: idx, Mode: mode}
+	tie := false
+	if n := textBytes(d); n <= tieBudget && (n <= 40000 || idx%16 == 0) {
+		tie = true
+		tieBudget -= n
+	}
+	if tie {
+		c.Count(mode + "/tied-to-model")
+	} else {
+		c.Count(mode + "/oracle-only")
+	}
+	nel, nh := 0, 0
+	for _, p := range d.Pages {
+		nel += len(p.Elems)
+		for _, e := range p.Elems {
+			if e.Kind == "h" {
+				nh++
+			}
+		}
+	}
+	switch mode {
+	case "doc":
+		runDocCase(c, k, d, sz, tie)
+		c.Count("doc/size=" + sz.Name)
+	case "layout":
+		runLayoutCase(c, k, d, r, tie)
+	}
+	c.Count(fmt.Sprintf("%s/pages=%d", mode, len(d.Pages)))
+	switch {
+	case nh == 0:
+		c.Count(mode + "/headings=0")
+	case nh < 4:
+		c.Count(mode + "/headings=1-3")
+	default:
+		c.Count(mode + "/headings>=4")
+	}
+	c.Case(mode+sz.Name+docWire(d), nel > 0)
+}
+
+func Run(c *hx.Ctx) {
+	c.Rep.Rule = "random logical documents (0-9 pages, 0-8 elements per page: headings of levels 1-6 in any order, paragraphs of 1 word .. 4x the configured maximum, nested ordered/unordered lists, ragged tables, images with/without alt text, empty pages, pages without layout, non-consecutive page numbers, heading-like paragraphs matched through the table of contents) built as model.Document with Elements and Layout filled consistently; every text is made of words unique in the document; x all size presets and random custom size configurations (characters, tokens, words, sentences, paragraphs) x both chunkers (layout-based chunker with default, RAG-optimized and random ChunkerConfig); non-trivial = at least one element"
+	fd := fixedDocs()
+	for _, name := range hx.SortedKeys(fd) {
+		d := fd[name]
+		k := kase{Seed: c.Seed, Mode: "fixed", Name: name}
+		runDocCase(c, k, d, sizeCase{Name: "default-api", Cfg: rag.DefaultSizeConfig(), CC: rag.DefaultChunkerConfig(), API: 0, MaxLen: 2000}, true)
+		runLayoutFixed(c, k, d)
+		c.Case("fixed"+name, true)
+	}
+	n := c.N(1500, 12000)
+	tieBudget = c.N(4000000, 40000000)
+	for i := 0; i < n; i++ {
+		runIndex(c, i, "doc")
+	}
+	m := c.N(1500, 12000)
+	tieBudget = c.N(4000000, 40000000)
+	for i := 0; i < m; i++ {
+		runIndex(c, 1000000+i, "layout")
+	}
+	runEndToEnd(c)
+}
+
+// Replay re-runs one recorded failing case on the implementation.
+func Replay(c *hx.Ctx, ks map[string]interface{}) {
+	mode, _ := ks["mode"].(string)
+	idx, _ := ks["index"].(float64)
+	if s, ok := ks["seed"].(float64); ok && uint64(s) != c.Seed {
+		c.Seed = uint64(s)
+		c.Rng = hx.NewRng(c.Seed)
+	}
+	switch mode {
+	case "fixed":
+		name, _ := ks["name"].(string)
+		if d, ok := fixedDocs()[name]; ok {
+			k := kase{Seed: c.Seed, Mode: "fixed", Name: name}
+			runDocCase(c, k, d, sizeCase{Name: "default-api", Cfg: rag.DefaultSizeConfig(), CC: rag.DefaultChunkerConfig(), API: 0, MaxLen: 2000}, false)
+			runLayoutFixed(c, k, d)
+		}
+	case "doc", "layout":
+		tieBudget = 0
+		runIndex(c, int(idx), mode)
+	case "e2e":
+		runEndToEnd(c)
+	}
+}
